@@ -542,3 +542,26 @@ mut('C07', 'zincdumper', "        if Version.nearest(version) < VER_3_0:\n      
 mut('C07', 'zoneinfo', "    for full_tz in pytz.all_timezones:", "    for full_tz in set(pytz.all_timezones):", name='zone map built by iterating a set')
 
 
+
+
+# ---- behaviour-preserving refactors (must stay silent) ----------------------------------
+mut('C05', 'jsonparser', """        parsed = copy.deepcopy(grid_str)
+    meta = parsed.pop('meta')""", """        parsed = copy.deepcopy(grid_str)
+    return _parse_grid(parsed)
+
+
+def _parse_grid(parsed):
+    meta = parsed.pop('meta')""", 'OK', name='refactor: parse_grid split into copy + worker')
+mut('C02', 'jsonparser', """        parsed = copy.deepcopy(grid_str)
+    meta = parsed.pop('meta')""", """        parsed = copy.deepcopy(grid_str)
+    return _parse_grid(parsed)
+
+
+def _parse_grid(parsed):
+    meta = parsed.pop('meta')""", 'OK', name='refactor: parse_grid split into copy + worker')
+mut('C02', 'jsonparser', """    metadata = {}
+    for name, value in meta.items():
+        metadata[name] = parse_embedded_scalar(value, version=version)""", """    grid_meta = {}
+    for tag, raw in meta.items():
+        grid_meta[tag] = parse_embedded_scalar(raw, version=version)
+    metadata = grid_meta""", 'OK', name='refactor: locals renamed in parse_grid')
